@@ -109,6 +109,8 @@ def gen_plan(S, index, tier):
     sp = SP.gen_pep(S, cfg)
     faults = [f for f in ('rng', 'abandon') if S.coin(0.6)]
     pool = {'X0': {'kind': 'ann', 'via': S.pick(['parse', 'create']), 'spec': sp}}
+    if pool['X0']['via'] == 'create':
+        pool['X0']['order'] = SP.gen_order(S, sp)
     n0 = len(sp['seq'])
     events = []
     if S.coin(0.5):
